@@ -332,6 +332,8 @@ fn nostd_variants() -> Vec<(&'static str, Vec<&'static str>)> {
 }
 
 pub fn run(check: &mut Check) {
+    // every shrink step is a compiler run
+    vcommon::SHRINK_ITERS.store(150, std::sync::atomic::Ordering::Relaxed);
     check.rule = "generated worlds (adversarial names: Rust keywords, prelude items, generator temporaries such as ptr0/len0/result0/ret/base/e, names differing by separator) + corpus files x Rust option variants {default, borrowing, borrowing-duplicate-if-necessary, --async=all, --std-feature, --merge-structurally-equal-types, --raw-strings} x editions {2021, 2024}: `--stubs --generate-all` output is built as a no_std cdylib for wasm32-unknown-unknown (-Zbuild-std=core,alloc), encoded with wit_component::ComponentEncoder, validated, decoded; \
         oracle: the build succeeds, the component validates, it exports exactly the requested world's exports with identical function types and imports a subset of its imports; non-trivial = every member (each is a distinct (world, variant, edition) build); batches are built with one cargo invocation".into();
     check.assumptions.push("std is unavailable for wasm32 here (dlmalloc not cached): the HashMap map type (needs std) is not built; a bump allocator, a panic handler and a wasip3_task_set stand-in are supplied by the harness".into());
